@@ -164,8 +164,8 @@ func runCase(ctx context.Context, s *hx.Session, tc tcase) error {
 			}
 		}
 		for w, r := range o.Results {
-			if r != "ok" || o.Passes[w] < 2 {
-				continue
+			if r != "ok" || (o.Passes[w] < 2 && o.Refused[w] == 0) {
+				continue // no refetch-and-merge happened in this writer
 			}
 			for _, op := range tc.sc.Writers[w].Ops {
 				if op.Kind == "rm" && hasKey(final, op.Key) && sig == "C04/final-state-differs" {
